@@ -345,6 +345,25 @@ fn n_ident(k: usize) -> NId {
     NId { a: (k as u64) << (7 * (k % 5)), g: k as u32 }
 }
 
+/// The size sweep for the bundled codecs only (every scenario x every packet
+/// size): used by C20 for its "datagrams stay well-formed when an encode runs
+/// out of space mid-feed" clause. Violations go into `rep`.
+pub fn bundled_codec_sweeps(th: bool, rep: &mut Report) -> Vec<serde_json::Value> {
+    let mut rows = Vec::new();
+    macro_rules! one {
+        ($w:expr) => {{
+            let w = $w;
+            let st = sweep(&w, th, rep);
+            rows.push(json!({"codec": w.label, "datagrams": st.datagrams, "feeds_truncated_by_packet_size": st.truncated_feeds, "accepted_by_fresh_real_peer": st.peer_accepts}));
+        }};
+    }
+    one!(World { label: "postcard (String identity)", codec: foca::PostcardCodec, wire: PostcardWire, ident: s_ident });
+    one!(World { label: "bincode standard() (String identity)", codec: foca::BincodeCodec(bincode::config::standard()), wire: BincodeWire, ident: s_ident });
+    one!(World { label: "postcard (integer identity)", codec: foca::PostcardCodec, wire: PostcardWire, ident: n_ident });
+    one!(World { label: "postcard (byte-field identity)", codec: foca::PostcardCodec, wire: PostcardWire, ident: b_ident });
+    rows
+}
+
 pub fn c07(tier: &str) -> Report {
     let th = tier == "thorough";
     let mut rep = Report::new("C07", tier, "model_checking");
@@ -358,8 +377,10 @@ pub fn c07(tier: &str) -> Report {
             total.merge(st);
         }};
     }
-    one!(World { label: "fixcodec (fixed-length identities)", codec: FixCodec { var: false }, wire: FixCodec { var: false }, ident: fix_ident });
-    one!(World { label: "fixcodec (variable-length identities)", codec: FixCodec { var: true }, wire: FixCodec { var: true }, ident: var_ident });
+    one!(World { label: "fixcodec (fixed-length identities)", codec: FixCodec { var: false, packed: false, ..FixCodec::default() }, wire: FixCodec { var: false, packed: false, ..FixCodec::default() }, ident: fix_ident });
+    one!(World { label: "fixcodec (variable-length identities)", codec: FixCodec { var: true, packed: false, ..FixCodec::default() }, wire: FixCodec { var: true, packed: false, ..FixCodec::default() }, ident: var_ident });
+    // a bit-packing codec: two bytes per member
+    one!(World { label: "fixcodec (packed: 2-byte members)", codec: FixCodec { var: false, packed: true, ..FixCodec::default() }, wire: FixCodec { var: false, packed: true, ..FixCodec::default() }, ident: fix_ident });
     one!(World { label: "postcard (String identity)", codec: foca::PostcardCodec, wire: PostcardWire, ident: s_ident });
     one!(World { label: "bincode standard() (String identity)", codec: foca::BincodeCodec(bincode::config::standard()), wire: BincodeWire, ident: s_ident });
     one!(World { label: "postcard (integer identity)", codec: foca::PostcardCodec, wire: PostcardWire, ident: n_ident });
